@@ -502,12 +502,17 @@ class Verifier(Engine):
     def _callee_env(self, callee: Contract, recv_path, st, args, kwargs):
         env = {}
         try:
-            fnode = self.repo.func(callee.qualname).node
-            params = [a.arg for a in fnode.args.args]
-            defaults = fnode.args.defaults
+            cfi = self.repo.func(callee.qualname)
         except SourceError:
             if not callee.assumed:
                 raise
+            cfi = None
+        if cfi is not None:
+            self.check_undecorated(cfi)
+            fnode = cfi.node
+            params = [a.arg for a in fnode.args.args]
+            defaults = fnode.args.defaults
+        else:
             params = (["self"] if callee.receiver_cls else []) + list(callee.params)
             defaults = []
         if params and params[0] == "self":
